@@ -220,11 +220,15 @@ PLANS["C01"] = plan_core("C01", "c01", "ledger + sanitizers over scheduled execu
                          + [{"name": "C01.miri.reent", "flavour": "miri", "args": ["reent"], "miri_seeds": T(tier, 2, 16), "timeout": 900},
                             miri_token_job("C01", "c05", tier, "arc"), miri_token_job("C01", "c01", tier, "tp", 4, 96)])
 PLANS["C02"] = plan_core("C02", "c02", "conservation law at quiescent points", memcheck=True,
-                         extra_jobs=lambda tier, seed: miri_race_jobs("C02", tier, [("a", "tp"), ("c", "tp"), ("b", "arc")], 8, 192))
+                         extra_jobs=lambda tier, seed: miri_race_jobs("C02", tier, [("a", "tp"), ("c", "tp"), ("b", "arc")], 8, 192) + [
+                             # the weak kind (empty value = dangling Weak <-> null): counts and borrow slots of a container of Weak
+                             core_token("C02.weak.token", "c02", T(tier, 800, 30000), alloc="real", extra=["val=weak"]),
+                             # exact accounting when a pointee destructor / clone / closure panics (second-round seed C02y)
+                             {"name": "C02.panic.seq", "flavour": "native", "args": ["panic", "mode=seq", "execs=%d" % T(tier, 800, 20000), "cap=8"], "shards": 2, "threads": 1, "timeout": 1200}])
 PLANS["C03"] = plan_core("C03", "c03", "history linearizability", asan=False,
                          extra_jobs=lambda tier, seed: [life_job("C03.life.token", "token", execs=T(tier, 400, 20000), profile="c03"), miri_core_job("C03", "c03", tier)] + miri_sb_jobs("C03", tier))
 PLANS["C04"] = plan_core("C04", "c04", "chain / conservation of writes", asan=False, extra_jobs=lambda tier, seed: [miri_core_job("C04", "c04", tier, 4, 96)] + miri_sb_jobs("C04", tier, quick_seeds=16, thorough_seeds=256), required=["load.fast_confirmed", "load.fallback_confirmed", "write.helped_reader"])
-PLANS["C05"] = plan_core("C05", "c05", "compare-and-swap histories", asan=False, extra_jobs=lambda tier, seed: [miri_core_job("C05", "c05", tier, 4, 96)] + miri_sb_jobs("C05", tier, "cas"), required=["cas.internal_retry", "load.fallback_confirmed"])
+PLANS["C05"] = plan_core("C05", "c05", "compare-and-swap histories", asan=False, extra_jobs=lambda tier, seed: [miri_core_job("C05", "c05", tier, 4, 96), core_token("C05.weak.token", "c05", T(tier, 800, 30000), alloc="real", extra=["val=weak"])] + miri_sb_jobs("C05", tier, "cas"), required=["cas.internal_retry", "load.fallback_confirmed"])
 PLANS["C06"] = plan_core("C06", "c06", "rcu histories", asan=False, extra_jobs=lambda tier, seed: [miri_core_job("C06", "c06", tier, 4, 96)] + miri_sb_jobs("C06", tier, "rcu"), required=["rcu.retried", "load.fallback_confirmed"])
 PLANS["C10"] = plan_core("C10", "c10", "guard identity / ownership ledger")
 def dual_jobs(tier):
@@ -450,6 +454,7 @@ def plan_c13():
         e["executions_per_situation"] = {k: v for k, v in c.items() if k.startswith("wrap.situation.")}
         e["executions_per_preset"] = {k: v for k, v in c.items() if k.startswith("wrap.preset_k.")}
         e["fault_points"] = "17 counter presets x 3 situations x 2 ways onto the slow path"
+        e["full_cycle_scenarios_completed"] = c.get("wrap.full_cycle.script_completed", 0)
         e["crate_panics"] = merged.get("crate_panics", [])
         return e
 
@@ -464,6 +469,8 @@ def plan_c13():
                 need.append("situation %d never run" % s_)
         if c.get("wrap.wraps_executed", 0) < 20:
             need.append("fewer than 20 wraps executed")
+        if c.get("wrap.full_cycle.script_completed", 0) < 16:
+            need.append("fewer than 16 full-cycle scenarios completed their script")
         return need
     return {
         "level": "fault_enumeration",
@@ -471,7 +478,9 @@ def plan_c13():
         "rule": ("Fault points = the 17 presets of the thread's slow-path transaction counter (the wrap then falls on the 1st .. 17th slow-path load) x 3 situations "
                  "(no writer; writers helping that transaction; the wrap inside a writer's nested replacement load) x 2 ways onto the slow path (fallback-only "
                  "strategy, default strategy with >8 guards held): all 102 cells are enumerated `reps` times with different workload / schedule seeds (TOKEN and "
-                 "free-running, plus Miri for small k), followed by 20-60 more operations per thread and all core oracles. In addition every execution of the core "
+                 "free-running, plus Miri for small k), followed by 20-60 more operations per thread and all core oracles. Plus 16 scripted full-cycle scenarios per TOKEN "
+                 "shard 0 (a writer parked at one of 4 points inside help() keeps a replacement for generation X while the reader's counter wraps after 1-4 loads "
+                 "and, preset forward, reaches X again: the old replacement must not be accepted). In addition every execution of the core "
                  "and lifecycle workloads runs under the panic hook. One evaluation = one execution; non-trivial = a load overlapped a write; distinct = distinct "
                  "(schedule trace, cell)."),
         "evidence": ev,
